@@ -601,6 +601,28 @@ def _insert(o, a):
     return It(o, a[0].pos)
 
 
+def _accumulate(ev, o, a):
+    first, last, acc = a[0], a[1], a[2]
+    fn = a[3] if len(a) > 3 else None
+    for x in _elems(first, last):
+        acc = ev.arith("+", acc, x) if fn is None else _apply2v(ev, fn, acc, x)
+    return acc
+
+
+def _apply2v(ev, fn, x, y):
+    from absint import Closure
+    if isinstance(fn, Closure):
+        return ev.call_closure(fn, [x, y])
+    if isinstance(fn, dict) and fn.get("body") is not None:
+        return ev.call(fn, None, [x, y])
+    cls = getattr(fn, "_cls", None) or (getattr(fn, "_t", None) if isinstance(fn, Struct) else None)
+    if cls and cls.startswith("std::multiplies"):
+        return ev.arith("*", x, y)
+    if cls and cls.startswith("std::plus"):
+        return ev.arith("+", x, y)
+    raise Broken("algorithm called with a binary operation the evaluator does not model")
+
+
 def _remove_if(ev, o, a):
     """std::remove_if as libstdc++ does it: kept elements are moved to the front in order, the iterator past them is returned, and
     what lies behind it is left over (here: the stale elements; the caller is expected to erase the whole tail)"""
@@ -786,7 +808,7 @@ def _vector_hooks():
                                            ([o.insert(_cp(x)) for x in _elems(a[0], a[1])] and None if isinstance(o, (SetObj, MapObj)) and len(a) == 2 and isinstance(a[0], It) and isinstance(a[1], It)
                                             else _insert(o, a))),
         "method:find": lambda ev, o, a: o.find(a[0]) if isinstance(o, (SetObj, MapObj)) else (_ for _ in ()).throw(Broken("find() on an unmodelled container")),
-        "method:count": lambda ev, o, a: (1 if o.find(a[0]).pos < len(o.items) else 0) if isinstance(o, SetObj) else sum(1 for x in o.items if x == a[0]),
+        "method:count": lambda ev, o, a: (1 if o.find(a[0]).pos < len(o.items) else 0) if isinstance(o, (SetObj, MapObj)) else sum(1 for x in o.items if x == a[0]),
         "method:emplace": lambda ev, o, a: (o.insert((a[0], a[1])) if isinstance(o, MapObj) and len(a) == 2 else
                                             (_insert(o, a) if isinstance(o, Vec) and not isinstance(o, (SetObj, MapObj)) and len(a) == 2 and isinstance(a[0], It) else
                                              (_ for _ in ()).throw(Broken("emplace on an unmodelled container / argument list")))),
@@ -815,6 +837,8 @@ def _vector_hooks():
         "std::count_if<*": lambda ev, o, a: sum(1 for x in _elems(a[0], a[1]) if ev.truth(_apply1(ev, a[2], x))),
         "std::find_if<*": lambda ev, o, a: next((It(a[0].vec, i) for i in _rng(a[0], a[1]) if ev.truth(_apply1(ev, a[2], a[0].vec.items[i]))), a[1].copy_value()),
         "std::make_pair<*": lambda ev, o, a: (a[0], a[1]),
+        "ctor:std::pair<*": lambda ev, o, a: (a[0], a[1]) if len(a) == 2 else (a[0] if len(a) == 1 and isinstance(a[0], tuple) else (_ for _ in ()).throw(Broken("std::pair constructed from %d arguments" % len(a)))),
+        "std::accumulate<*": _accumulate,
         "std::lower_bound<*": _lower_bound,
         "std::binary_search<*": _binary_search,
         "std::sort<*": _sort,
@@ -1229,6 +1253,12 @@ class CxxEvaluator(Evaluator):
         if e is None:
             return None
         k = e.get("k")
+        if k == "call" and e.get("fn") == "reset" and (e.get("cls") or "").startswith(("std::unique_ptr<", "std::shared_ptr<")) and e.get("obj") is not None \
+           and isinstance(e["obj"], dict) and e["obj"].get("k") in ("ref", "mem"):
+            # p.reset (q): p now points at q (what a unique_ptr owned so far is deleted by the store)
+            val = self.eval(e["a"][0], env, this) if e.get("a") else None
+            self.store(e["obj"], val, env, this)
+            return None
         if k == "call" and e.get("fn") == "operator=" and (e.get("cls") or "").startswith(("std::unique_ptr<", "std::shared_ptr<")) and e.get("a"):
             # (move) assignment of a smart pointer: the target is re-bound (a unique_ptr deletes what it owned), a moved-from source is null
             lhs_n, rhs_n = (e["obj"], e["a"][0]) if e.get("obj") is not None else ((e["a"][0], e["a"][1]) if len(e["a"]) == 2 else (None, None))
@@ -1399,6 +1429,8 @@ class CxxEvaluator(Evaluator):
             return self.binop(e["op"], a, b)
         if k == "cast":
             v = self.eval(e["e"], env, this)
+            if isinstance(v, list) and len(v) <= 1 and tinfo((e.get("t") or "").replace("const ", "")) is not None:
+                return conv(v[0] if v else 0, e.get("t"))        # `size_t {1}` / `int {}`: a scalar
             if isinstance(v, list) and not v and self.prog is not None and (e.get("t") or "").replace("const ", "") in self.prog.records:
                 return self.new_object((e.get("t") or "").replace("const ", ""))      # `T {}` of a repository class: value-initialised object
             if e.get("ck") == "reinterpret" and hasattr(v, "reinterpret_as"):
